@@ -23,6 +23,7 @@ TRUSTED = ["Coq 8.16.1 kernel, vm_compute for the correspondence evaluation",
            "whose winning segment cannot be changed by rounding (K_C07.decided_query)",
            "NumPy, vg"]
 CASE_IMPORTS = [("PW.model", "M_polyline_base"), ("PW.model", "M_segment"), ("PW.model", "M_polyline_nearest")]
+DEFINITIONAL = ["C07_pairwise_is_rowwise"]
 ASSUMPTIONS = ["theorems are about exact real arithmetic; binary64 rounding is covered only by the tolerance of the "
                "correspondence check on sampled inputs",
                "sub-path clauses: sliced_at_points is proved for open (forward / refusal) and closed (forward / wrap-around) "
@@ -387,6 +388,8 @@ def gen_cases(rng, n, tier):
             b = _query_near(rng, pts, closed, ax, sc)
             if rng.random() < 0.15:
                 a = list(rng.choice(pts))                       # exactly a vertex
+            if rng.random() < 0.12:
+                b = list(rng.choice(pts))                       # exactly a vertex: no insertion for the end point
             fv = [_F3(p) for p in pts]
             wa, ia, ta, ca, _ = _exact_nearest(fv, closed, _F3(a))
             wb, ib, tb, cb, _ = _exact_nearest(fv, closed, _F3(b))
@@ -534,7 +537,8 @@ def _oracle_nearest(c, o):
     segs = _segs(vs, c["closed"])
     obs, full = o["obs"], o["full"]
     if not segs:
-        return None if ("raise" in obs and "raise" in full) else None
+        # outside the property's domain: the code refuses (argmin of an empty sequence)
+        return None if ("raise" in obs and "raise" in full) else "nearest answered on a polyline without any segment"
     if "raise" in full or "raise" in obs:
         return "nearest raised %s on a polyline with %d segments" % ((full.get("raise") or obs.get("raise")), len(segs))
     if not o["args_unchanged"]:
@@ -565,7 +569,7 @@ def _oracle_nearest(c, o):
         if abs(Fr(D[r]) ** 2 - d2) > Fr(1, 10 ** 8) * max(d2, mag * mag):
             return "query %d: distance %r is not |query - point|" % (r, D[r])
         best = min(_hit(p, x, y)[0] for x, y in segs)
-        if d2 > best + Fr(1, 10 ** 8) * max(best, mag * mag * Fr(1, 10 ** 4)):
+        if d2 > best + Fr(1, 10 ** 8) * max(best, mag * mag * Fr(1, 10 ** 16)):
             return "query %d: a closer point of the polyline exists (returned d^2=%s, minimum %s)" % (r, float(d2), float(best))
     # the flagged call: every requested output is returned and equals the all-flags result
     ri, rd, rt = c["flags"]
@@ -675,7 +679,7 @@ def oracle(c, o):
             pt = _F3(o["pts"][r])
             d2 = _dot(_sub(p, pt), _sub(p, pt))
             best = _hit(p, a, [x + y for x, y in zip(a, v)])[0]
-            if d2 > best + Fr(1, 10 ** 8) * max(best, mag * mag * Fr(1, 10 ** 4)):
+            if d2 > best + Fr(1, 10 ** 8) * max(best, mag * mag * Fr(1, 10 ** 16)):
                 return "row %d: a closer point of the segment exists" % r
             decided = c["exact"] or abs(best - eps2) > Fr(1, 10 ** 5) * max(eps2, mag * mag)
             if decided and o["on"][r] != (best <= eps2):
